@@ -254,6 +254,11 @@ func runC12(w *fw.Worker) {
 					texts = append(texts, csvLine(items[s0:min(s0+per, len(items))]))
 				}
 			}
+			if k := lf.Type.Kind(); (k == reflect.Slice || k == reflect.Map) && lf.Caps&gen.CapTextU == 0 && len(texts) > 0 && texts[0] != "" && r.Chance(10) {
+				// an empty occurrence before the others adds nothing
+				texts = append([]string{""}, texts...)
+				w.Count("empty_occurrence_before_others", 1)
+			}
 			layer.Vals[lr] = acc
 			if len(texts) > 1 {
 				repeats++
